@@ -342,7 +342,7 @@ func (st *runState) deadlineOf(slot uint64) (time.Duration, bool) {
 }
 
 func TestSim(t *testing.T) {
-	kernel.Main(t, kernel.Harness{Name: "c06", Horizon: 10 * time.Minute, Body: body, After: after})
+	kernel.Main(t, kernel.Harness{Name: "c06", Horizon: 10 * time.Minute, Body: body, After: after, PreemptMax: 20 * time.Millisecond})
 }
 
 // run hands the recorded history to After (one run at a time per process).
@@ -604,7 +604,12 @@ func body(c *kernel.Ctx) {
 						h.add(o)
 						verifrt.Note("c%d store#%d e%d %v val=%d", cl, sid, o.entry, o.key, o.val)
 					}
+					// a storing client may be descheduled between any two steps of the call while time passes
+					// (readers are not: a reader that is descheduled until its own timeout fires may rightly
+					// return the timeout although the key was stored meanwhile)
+					verifrt.SetPreemptible(true)
 					err := db.Store(ctx, dutyOf(typ, slot), set)
+					verifrt.SetPreemptible(false)
 					if ctx.Err() != nil {
 						return
 					}
@@ -838,7 +843,18 @@ func evaluate(c *kernel.Ctx, st *runState, now time.Duration) {
 				violate("promptness", kn+":await-blocked-at-quiescence", k,
 					"client %d Await(%v) invoked at %v still blocked at quiescence (t=%v) although a Store providing that key returned nil at t=%v", o.client, k, o.callT, now, storedAt)
 			}
-			if o.ret != 0 && o.err == "ctx" && storedAt < o.retT && (!exp || o.retT < dl) {
+			// a Store that was descheduled inside the call (it took simulated time) may have held the store's mutex
+			// meanwhile: a query that overlaps it can be kept from registering until its own timeout has fired,
+			// and may then rightly return that timeout
+			behindSlowStore := false
+			for _, ss := range h.ops {
+				if ss.kind == opStore && (ss.ret == 0 || ss.retT > ss.callT) && ss.callT <= o.retT && (ss.ret == 0 || ss.retT >= o.callT) {
+					behindSlowStore = true
+				}
+			}
+			if o.ret != 0 && o.err == "ctx" && storedAt < o.retT && (!exp || o.retT < dl) && behindSlowStore {
+				verifrt.Probe("await_timed_out_behind_descheduled_store")
+			} else if o.ret != 0 && o.err == "ctx" && storedAt < o.retT && (!exp || o.retT < dl) {
 				violate("promptness", kn+":await-cancelled-after-store", k,
 					"client %d Await(%v) invoked at %v was cancelled/timed out at %v although a Store providing that key returned nil earlier, at t=%v", o.client, k, o.callT, o.retT, storedAt)
 			}
@@ -947,12 +963,41 @@ func after(c *kernel.Ctx) {
 	}
 	byKey := map[key][]porcupine.Operation{}
 	var keys []key
+	// Stores that were descheduled inside the call (they took simulated time, possibly holding the mutex)
+	var slow []*op
+	maxStamp := int64(0)
+	for _, o := range st.h.ops {
+		if o.kind == opStore && (o.ret == 0 || o.retT > o.callT) {
+			slow = append(slow, o)
+		}
+		maxStamp = max(maxStamp, o.call, o.ret)
+	}
 	for _, o := range st.h.ops {
 		if o.ret == 0 || strings.HasPrefix(o.err, "other:") {
 			continue // pending query: no effect; unexpected errors are reported by evaluate
 		}
+		ret := o.ret
 		if dl, exp := st.deadlineOf(o.key.slot); exp && o.retT >= dl {
-			continue
+			if o.kind == opStore && o.err == "" && o.callT < dl {
+				// a descheduled Store that began before the deadline and succeeded after it: its insert took
+				// effect somewhere in between and reads completed before the deadline may have seen it
+				maxStamp++
+				ret = maxStamp
+			} else {
+				continue
+			}
+		}
+		if o.kind == opAwait && o.err == "ctx" {
+			// a query kept from registering by a descheduled Store until its own timeout fired may return the timeout
+			behind := false
+			for _, ss := range slow {
+				if ss.callT <= o.retT && (ss.ret == 0 || ss.retT >= o.callT) {
+					behind = true
+				}
+			}
+			if behind {
+				continue
+			}
 		}
 		if _, ok := byKey[o.key]; !ok {
 			keys = append(keys, o.key)
@@ -961,7 +1006,7 @@ func after(c *kernel.Ctx) {
 		if o.kind == opStore {
 			err = ""
 		}
-		byKey[o.key] = append(byKey[o.key], porcupine.Operation{ClientId: o.client, Input: in{o.kind, o.val, o.weak, o.kind == opStore && o.err != ""}, Call: o.call, Output: out{o.val, err}, Return: o.ret})
+		byKey[o.key] = append(byKey[o.key], porcupine.Operation{ClientId: o.client, Input: in{o.kind, o.val, o.weak, o.kind == opStore && o.err != ""}, Call: o.call, Output: out{o.val, err}, Return: ret})
 	}
 	sort.Slice(keys, func(i, j int) bool { return keyLess(keys[i], keys[j]) })
 	for _, k := range keys {
